@@ -252,6 +252,21 @@ class Engine:
 
     def feasible(self, st):
         """False only if the path condition is proved unsatisfiable."""
+        if st.pc:
+            # cheap syntactic test first: the formula assumed last is the negation of an earlier one (a branch on a condition
+            # that a precondition / an earlier branch already decided) - no solver call, no string theory
+            last = st.pc[-1]
+            neg = simp(z3.Not(last))
+            nid = neg.get_id()
+            for f in st.pc[:-1]:
+                if f.get_id() == nid or f.eq(neg):
+                    self.stats["pruned"] += 1
+                    self.stats["pruned_syntactic"] = self.stats.get("pruned_syntactic", 0) + 1
+                    return False
+                if z3.is_and(f) and any(c.eq(neg) for c in f.children()):
+                    self.stats["pruned"] += 1
+                    self.stats["pruned_syntactic"] = self.stats.get("pruned_syntactic", 0) + 1
+                    return False
         if self._check(st) == z3.unsat:
             self.stats["pruned"] += 1
             return False
@@ -2648,6 +2663,9 @@ class Engine:
         args, kwargs = self.args_of(e, ec)
         is_method = recv is not None and fsrc.cls is not None
         penv = self.bind_params(fsrc, recv, args, kwargs, ec, is_method)
+        for gname in c.opts.get("globals", {}):
+            if gname in ec.st.env and gname not in penv:
+                penv[gname] = ec.st.env[gname]       # module globals / ghost traces are shared between caller and callee
         fx = ec.fx
         pre_st = St(penv, ec.st.heap.copy(), ec.st.pc, ghost=dict(ec.st.ghost))
         callee_fx = FX(self, c, fsrc)
@@ -2827,7 +2845,18 @@ class Engine:
                 ec.may_raise_exc(flag, Exc(c, None, e.lineno, "exception escaping opaque callee %s" % name))
             else:
                 ec.may_raise_exc(flag, Exc(cid(cls_name), None, e.lineno, "%s from opaque callee %s" % (cls_name, name)))
-        if not desc.get("pure"):
+        # the names an assumed frame / postcondition of the opaque callee may use: recv, arg0, arg1, ..., result
+        oenv = dict(ec.st.env)
+        if recv is not None:
+            oenv["recv"] = recv
+        for j_, a_ in enumerate(args):
+            oenv["arg%d" % j_] = a_
+        pre_o = St(dict(oenv), ec.st.heap.copy(), list(ec.st.pc), ghost=dict(ec.st.ghost))
+        if desc.get("assigns") is not None:
+            # assumed frame: only the listed objects / attributes (of the receiver and arguments) change
+            if desc["assigns"]:
+                self.havoc_heap(ec.st, desc["assigns"], oenv, e.lineno)
+        elif not desc.get("pure"):
             self.havoc_heap(ec.st, ["*"], {}, e.lineno, keep=self.ghost_refs(ec))
         kind = desc.get("result", "V")
         res = T(kind, fresh("opq_" + name, KIND_SORT[kind]))
@@ -2848,6 +2877,12 @@ class Engine:
             res = tV(V.ref(r))
         if desc.get("result_allocated", True) and kind == "V" and not desc.get("result_class") and not desc.get("fn"):
             ec.st.assume(z3.Implies(is_ref(res.t), z3.And(V.rv(res.t) >= 0, V.rv(res.t) < ec.st.heap.alloc)))
+        if desc.get("ensures"):
+            # assumed postcondition (an ASSUMED contract of library code: listed in the evidence)
+            oenv2 = dict(oenv)
+            post_o = St(oenv2, ec.st.heap, ec.st.pc, ghost=dict(ec.st.ghost, result=res))
+            for text, f in self.spec_conj(desc["ensures"], post_o, pre_o, getattr(ec, "fx", None)):
+                ec.assume(f)
         self.assumptions.add("opaque callee %s: %s" % (name, desc.get("note", "result arbitrary; heap %s; may raise %s" % (
             "unchanged" if desc.get("pure") else "arbitrary afterwards", raises))))
         return res
